@@ -8,9 +8,13 @@
 //                                      construct the Node -> the five values as the Node sanitised them
 //   adv <ns>                           -> ok
 //   store <chunk> <ttl_s>              Node::store_chunk                    -> ok ck=<record lifetime ns>
-//   ingest <chunk> <E_s>               Node::ingest_manifest of the chunk's genuine manifest re-encoded with
-//                                      expiry E_s (absolute wall-clock seconds)            -> r=<0|1>
-//   announce <chunk> <E_s> <peer> <ttl_s> <asg01>
+//   ingest <chunk> <E_s> [o|s]         Node::ingest_manifest of a manifest of the chunk re-encoded with expiry E_s
+//                                      (absolute wall-clock seconds)                        -> r=<0|1>
+//                                      o (default): the manifest a remote publisher (a second Node) produced for the
+//                                      id - its own key; same content as a local store for odd-numbered chunks,
+//                                      different content for even-numbered ones; s: the manifest this node has cached
+//                                      for the id (same key and content hash), o if it has none
+//   announce <chunk> <E_s> <peer> <ttl_s> <asg01> [o|s]
 //                                      Node::handle_announce (sender checks disabled: no PoW, no throttle)
 //                                      -> r=<0|1> disp=<chunks dispatched by the fetch scheduler> pf=<pending fetches>
 //   reannounce <chunk> <ttl_s>         Node::announce_chunk, only when the chunk is held and the new
@@ -115,6 +119,14 @@ ChunkData chunk_bytes(const std::string& tok) {
     return d;
 }
 
+// what the remote publisher stored under the id: the same bytes for odd-numbered chunks, other bytes for even ones
+ChunkData origin_bytes(const std::string& tok) {
+    ChunkData d = chunk_bytes(tok);
+    const unsigned long n = tok.size() > 1 ? std::stoul(tok.substr(1)) : 0;
+    if (n % 2 == 0) d.push_back(0x78);
+    return d;
+}
+
 // the genuine manifest of a chunk as a remote publisher would have produced it
 const Origin& origin_of(const std::string& tok) {
     auto it = origins.find(tok);
@@ -126,14 +138,18 @@ const Origin& origin_of(const std::string& tok) {
     }
     const auto id = intern(tok);
     Origin o;
-    o.manifest = origin_node->store_chunk(id, chunk_bytes(tok), seconds(3600));
+    o.manifest = origin_node->store_chunk(id, origin_bytes(tok), seconds(3600));
     o.manifest.discovery_hints.clear();
     o.manifest.fallback_hints.clear();
     return origins.emplace(tok, std::move(o)).first->second;
 }
 
-std::string manifest_uri(const std::string& tok, long long expiry_s) {
+std::string manifest_uri(const std::string& tok, long long expiry_s, const std::string& src = "o") {
     protocol::Manifest m = origin_of(tok).manifest;
+    if (src == "s" && node) {
+        const auto it = node->manifest_cache_.find(chunk_id_to_string(verif::id32(tok)));
+        if (it != node->manifest_cache_.end()) m = it->second;
+    }
     m.expires_at = std::chrono::system_clock::time_point{seconds(expiry_s)};
     return protocol::encode_manifest(m);
 }
@@ -244,12 +260,12 @@ std::string do_op(const std::vector<std::string>& t) {
         }
         return "ok ck=" + ck;
     }
-    if (op == "ingest" && t.size() == 3) {
+    if (op == "ingest" && (t.size() == 3 || t.size() == 4)) {
         intern(t[1]);
-        const bool r = node->ingest_manifest(manifest_uri(t[1], std::stoll(t[2])));
+        const bool r = node->ingest_manifest(manifest_uri(t[1], std::stoll(t[2]), t.size() == 4 ? t[3] : std::string("o")));
         return std::string("r=") + (r ? "1" : "0");
     }
-    if (op == "announce" && t.size() == 6) {
+    if (op == "announce" && (t.size() == 6 || t.size() == 7)) {
         const auto id = intern(t[1]);
         const auto sender = intern(t[3]);
         const auto& origin = origin_of(t[1]);
@@ -258,7 +274,7 @@ std::string do_op(const std::vector<std::string>& t) {
         p.peer_id = sender;
         p.endpoint = "10.0.0.9:4000";
         p.ttl = seconds(std::stoll(t[4]));
-        p.manifest_uri = manifest_uri(t[1], std::stoll(t[2]));
+        p.manifest_uri = manifest_uri(t[1], std::stoll(t[2]), t.size() == 7 ? t[6] : std::string("o"));
         const bool asg = t[5] == "1" && !origin.manifest.shards.empty();
         if (asg) p.assigned_shards.push_back(origin.manifest.shards.front().index);
         node->peer_announce_lockouts_.clear();
